@@ -220,6 +220,67 @@ def fault_stage(c, remote):
         server._pythia_server.stop(0)  # pylint: disable=protected-access
 
 
+def unreachable_pythia_stage(c):
+  """Split deployment whose Pythia server is NOT reachable (study configured with a pythia_endpoint on an
+  unused loopback port): SuggestTrials must TERMINATE with a reported failure (the stub's channel-ready
+  wait is bounded), leave no unfinished operation and not keep the operation lock; a later call by another
+  worker terminates too."""
+  import socket
+  import threading
+  import time as _time
+  from vizier._src.service import vizier_service, vizier_service_pb2 as vsp, study_pb2
+  from vizier.service import pyvizier as vz
+  sock = socket.socket()
+  sock.bind(('localhost', 0))
+  port = sock.getsockname()[1]
+  sock.close()                       # nothing listens there now
+  sv = vizier_service.VizierServicer(database_url=None)
+  sc = vz.StudyConfig()
+  sc.search_space.root.add_float_param('x', 0.0, 1.0)
+  sc.metric_information.append(vz.MetricInformation('obj', goal=vz.ObjectiveMetricGoal.MAXIMIZE))
+  sc.algorithm = 'RANDOM_SEARCH'
+  sc.pythia_endpoint = 'localhost:%d' % port
+  study = sv.CreateStudy(vsp.CreateStudyRequest(parent='owners/o', study=study_pb2.Study(display_name='unreach', study_spec=sc.to_proto())))
+  limit = 45.0
+  results = {}
+
+  def call(w):
+    t0 = _time.time()
+    try:
+      op = sv.SuggestTrials(vsp.SuggestTrialsRequest(parent=study.name, suggestion_count=1, client_id=w))
+      results[w] = ('error-op' if op.HasField('error') else ('done' if op.done else 'PENDING'), _time.time() - t0)
+    except Exception as e:  # pylint: disable=broad-except
+      results[w] = ('EXC:' + type(e).__name__, _time.time() - t0)
+  workers = ['w1'] if c.tier == 'quick' else ['w1', 'w2']
+  for w in workers:
+    th = threading.Thread(target=call, args=(w,), daemon=True)
+    th.start()
+    th.join(limit)
+    c.traces += 1
+    c.count(1, ('unreachable', w), kind='fault:unreachable-pythia')
+    case = {'pythia_endpoint': sc.pythia_endpoint, 'worker': w, 'limit_s': limit, 'result': results.get(w)}
+    if th.is_alive():
+      c.prop_fail('suggest-hangs-on-unreachable-pythia',
+                  'SuggestTrials of a study whose Pythia server is unreachable did not return within %.0f s: the failure is never reported and the study is blocked' % limit, case)
+      return
+    status = results[w][0]
+    if status in ('done', 'PENDING'):
+      c.prop_fail('suggest-failure-not-reported', 'Pythia unreachable, but SuggestTrials answered %s' % status, case)
+  pending = []
+  for w in workers:
+    try:
+      pending += [o.name for o in sv.datastore.list_suggestion_operations(study.name, w) if not o.done]
+    except Exception:  # pylint: disable=broad-except
+      pass
+  lock = sv._operation_lock[study.name]  # pylint: disable=protected-access
+  free = lock.acquire(blocking=False)
+  if free:
+    lock.release()
+  if pending or not free:
+    c.prop_fail('operation-left-pending:unreachable-pythia', 'after the reported failure an operation is unfinished (%s) or the operation lock is still held (%s)' % (pending, not free),
+                {'pythia_endpoint': sc.pythia_endpoint, 'pending': pending, 'lock_free': free})
+
+
 def client_stage(c):
   """VizierClient.get_suggestions terminates (bounded polls) when the algorithm fails."""
   import time as _time
@@ -276,6 +337,7 @@ def run(c):
   svccheck.differential(c, 'C06', n, backends, cfgs, weights=WEIGHTS, fail_rate=0.45, clients=('w1', 'w2', 'w3'))
   fault_stage(c, remote=False)
   fault_stage(c, remote=True)
+  unreachable_pythia_stage(c)
   client_stage(c)
   svc.cleanup()
   return c.finish(
